@@ -52,7 +52,13 @@ type gdef struct {
 	deps []int
 }
 
+// gTaskNames, when set, replaces the default task names for one family of cases
+var gTaskNames []string
+
 func tname(i int) string {
+	if gTaskNames != nil && i < len(gTaskNames) {
+		return gTaskNames[i]
+	}
 	if i >= 100 {
 		return "undefined" + string(rune('a'+i-100))
 	}
@@ -64,6 +70,11 @@ func tname(i int) string {
 }
 
 func tnum(s string) int {
+	for i, n := range gTaskNames {
+		if n == s {
+			return i
+		}
+	}
 	if strings.HasPrefix(s, "undefined") {
 		return 100 + int(s[9]-'a')
 	}
@@ -472,6 +483,27 @@ func graphCmd(args []string) error {
 		}
 		r.Shuffle(len(req), func(i, j int) { req[i], req[j] = req[j], req[i] })
 		runCase("wide-chains", defs, req, nil)
+	}
+	// (b'') names with underscores (the one non-letter an identifier may contain): pairs of edges whose ends concatenate to the
+	// same text (a_b <- c and a <- b_c) are different edges.  Every subset of six candidate edges x five request lists.
+	if *shard == 0 {
+		gTaskNames = []string{"a_b", "c", "a", "b_c", "d"}
+		edges := [][2]int{{1, 0}, {3, 2}, {2, 4}, {1, 4}, {3, 0}, {0, 4}} // {task, dependency}
+		for mask := 0; mask < 1<<len(edges); mask++ {
+			defs := make([]gdef, 5)
+			for i := range defs {
+				defs[i].name = i
+			}
+			for e, ed := range edges {
+				if mask>>e&1 == 1 {
+					defs[ed[0]].deps = append(defs[ed[0]].deps, ed[1])
+				}
+			}
+			for _, req := range [][]int{{1, 3}, {3, 1}, {1}, {3}, {1, 3, 2}} {
+				runCase("underscore-names", defs, req, nil)
+			}
+		}
+		gTaskNames = nil
 	}
 	// (c) sampled sparse graphs up to 8 vertices, with undefined names, duplicate definitions and failing commands
 	nr := 4000
